@@ -160,7 +160,15 @@ def _axis_slice_sweep(self, tier, seed):
     from contracts.common import native_sweep, sorted_env
 
     cases = [{"n": n, "kinds": k} for n in ((12, 40) if tier == "quick" else (12, 40, 150)) for k in proper_kind_pairs()]
-    return native_sweep(self, cases, envs=lambda case, rng: sorted_env("a", case["n"], rng, -20, 20), seed=seed)
+    def env(case, rng):
+        e = sorted_env("a", case["n"], rng, -20, 20)
+        pts = list(e.values())
+        # bounds between axis points and bounds that coincide with axis points (closed interval: the point belongs to it)
+        for name in ("lo", "hi"):
+            e[name] = rng.choice(pts) if rng.random() < 0.6 else round(rng.uniform(-22, 22), 3)
+        return e
+
+    return native_sweep(self, cases, envs=env, tries=6, seed=seed)
 
 
 AxisSlice.bounded_checks = _axis_slice_sweep
